@@ -87,6 +87,37 @@ def run_consumer(chk, prop, tier, seed, alias=None, only=None):
         judge(chk, prop, "consumer[%s]" % cfg["name"], traces, results, lambda t: t["steps"], csig, sources, alias=alias)
 
 
+LIVE_CONFIGS = {
+    "async-n1-earliest": ["  Log = {0, 1}", "  BlockN = 1", "  AutoCommitT = FALSE", "  Group = TRUE", "  MaxAttempts = 0",
+                          '  Reset = "earliest"', "  SyncProc = FALSE", "  Delays <- DelaysDef", "  MaxBuf = 1"],
+    "sync-tick-latest": ["  Log = {0, 2}", "  BlockN = 0", "  AutoCommitT = TRUE", "  Group = TRUE", "  MaxAttempts = 0",
+                         '  Reset = "latest"', "  SyncProc = TRUE", "  Delays <- DelaysDef", "  MaxBuf = 0"],
+    "nogroup-limit2": ["  Log = {0, 1, 2}", "  BlockN = 0", "  AutoCommitT = FALSE", "  Group = FALSE", "  MaxAttempts = 2",
+                       '  Reset = "none"', "  SyncProc = FALSE", "  Delays <- DelaysDef", "  MaxBuf = 1"],
+}
+
+
+def liveness(chk, prop, tier):
+    """progress on the design (Consumer_Live.tla): once faults cease a started consumer that was not stopped and did not fail
+    has the whole log fetched and handed over; complete state space, weak fairness of every kind of fault-free event"""
+    import re
+    for name, consts in LIVE_CONFIGS.items():
+        wd = tlc.workdir("%s-%s-conslive-%s" % (prop, tier, name))
+        lines = ["SPECIFICATION LSpec", "CONSTANTS"] + consts + ["  MaxDepth = 0", "CONSTRAINT LBound", "PROPERTY C02_progress", "CHECK_DEADLOCK FALSE"]
+        tla, cfgp = tlc.write_mc(wd, "MC_live", "Consumer_Live", ["DelaysDef == <<100000, 120205>>"], lines)
+        rc, text, wall = tlc.run(tla, cfgp, wd, workers=8, timeout=1800)
+        violated = bool(re.search(r"Temporal propert(y \S+ was|ies were) violated", text))
+        if rc != 0 and not violated:
+            raise tlc.MachineryError("consumer liveness check failed to run (rc=%s):\n%s" % (rc, text[-1500:]))
+        chk.add_model("Consumer_Live[%s]" % name, tlc.MCResult(0, text, wall), {"constants": [c.strip() for c in consts], "constraint": "at most 3 commit waiters"},
+                      "temporal property C02_progress: (<>[][fault-free steps]) => <>[](caught up with the log, or stopped / failed)")
+        chk.count("%s.progress:%s:%s" % (prop, name, "violated" if violated else "holds"))
+        if violated:
+            k = max(0, text.find("Error: Temporal propert"))
+            chk.violation("%s.progress" % prop, name, "the design model admits a behaviour in which faults cease and the consumer never catches up",
+                          {"family": "consumer-live", "config": name, "counterexample": text[k:k + 6000]})
+
+
 def run_full(chk, prop, tier, seed, alias=None):
     """the real Consumer over the real client, codec and the simulated cluster; consumer-level events derived by the recorder"""
     thorough = tier == "thorough"
@@ -149,6 +180,8 @@ def main(prop, tier, seed, replay_file):
             "process death is modelled as abandoning the consumer at an event boundary and starting a new one from the committed position",
         ]
         run_consumer(chk, prop, tier, seed)
+        if prop in ("C02", "C14"):
+            liveness(chk, prop, tier)
         chk.assumptions.append("full-stack runs: consumer-level events are derived from the completion of the client's request methods; "
                                "a completion arriving while the consumer handles another event is delivered right after it")
         run_full(chk, prop, tier, seed)
